@@ -123,6 +123,15 @@ func runC12(c *Ctx) {
 					}
 				}
 			}
+			// text that is not valid UTF-8 (a Latin-1 name, stray bytes) is the caller's content too: Encode may write what
+			// it likes into the token, the object stays as it was (these objects are not sent to the Coq model)
+			if i >= perKindCoq && i%5 == 2 {
+				cd := cl.Claims()
+				cd.Name = []string{"caf\xe9 \xff\xfe latin-1 name", "\xff", "ok\xc3", "\xed\xa0\x80 surrogate"}[i%4]
+				if i%2 == 0 {
+					cd.Audience = "aud\xe9\xe9"
+				}
+			}
 			// content that happens to equal the signing key's public key is content like any other
 			if i%3 == 1 {
 				switch x := cl.(type) {
